@@ -14,3 +14,11 @@ Definition run_case (c : config FN) (k : nat) (B : nat) (inps : list (list (bool
     Nd [L 0; ser_list ser_acc (accumulate FN (None, None) outs); ser_list ser_acc outs;
         ser_part (acc_update FN (final_acc FN outs))]
   else Nd [L 1; L 2].
+
+(* delays given per step (re-assigned between steps) *)
+Definition run_case_k (c : config FN) (B : nat) (inps : list (nat * (list (bool * bool) * signal FN))) : tree :=
+  if hp_ok FN c && forallb (fun i => cfg_ok FN c (fst i)) inps then
+    let outs := run_k FN c (init_batch FN B) inps in
+    Nd [L 0; ser_list ser_acc (accumulate FN (None, None) outs); ser_list ser_acc outs;
+        ser_part (acc_update FN (final_acc FN outs))]
+  else Nd [L 1; L 2].
